@@ -1,15 +1,28 @@
 package sim
 
+import "time"
+
 // Shrink minimises a failing tape. fails must be a pure function of the tape:
 // it re-executes the run in replay mode and reports whether the *same*
 // violation key is still observed; it returns the tape prefix actually used.
 // Passes: delete spans, zero spans, lower single values. Bounded by budget
 // executions.
 func Shrink(vals []uint64, budget int, fails func([]uint64) (used []uint64, ok bool)) ([]uint64, int) {
+	return ShrinkUntil(vals, budget, time.Time{}, fails)
+}
+
+// ShrinkUntil is Shrink with a wall-clock deadline (zero = none): a violation
+// that makes every execution slow (loops up to the step cap) must not stall
+// the report.
+func ShrinkUntil(vals []uint64, budget int, deadline time.Time, fails func([]uint64) (used []uint64, ok bool)) ([]uint64, int) {
 	cur := append([]uint64(nil), vals...)
 	execs := 0
 	try := func(cand []uint64) bool {
 		if execs >= budget {
+			return false
+		}
+		if !deadline.IsZero() && execs > 0 && time.Now().After(deadline) {
+			execs = budget
 			return false
 		}
 		execs++
